@@ -304,8 +304,8 @@ impl Message {
     pub fn rda_control_authorization(&self) -> ControlAuthorization {
         match self.rda_control_authorization {
             0 => ControlAuthorization::NoAction,
-            1 => ControlAuthorization::LocalControlRequested,
-            2 => ControlAuthorization::RemoteControlRequested,
+            2 => ControlAuthorization::LocalControlRequested,
+            4 => ControlAuthorization::RemoteControlRequested,
             _ => panic!(
                 "Invalid RDA control authorization: {}",
                 self.rda_control_authorization
